@@ -146,7 +146,8 @@ LexesAsWord(nm) ==
   /\ (nm[1] \in {"NULL", "true", "false"} => nm \in {<< "true" >>, << "false" >>})
 NameBare(nm, devs) == PrinterBare(nm) /\ ("BareFieldNotAWord" \in devs \/ LexesAsWord(nm))
 (* names are chunk sequences; their text is the chunks' characters *)
-NameText(nm) == Flat([j \in 1..Len(nm) |-> Chars(nm[j])])
+CharAtoms == {"LF", "CR", "TAB", "DQ", "BS", "NA2", "NA3", "NA4"}
+NameText(nm) == Flat([j \in 1..Len(nm) |-> IF nm[j] \in CharAtoms THEN << nm[j] >> ELSE Chars(nm[j])])
 FieldText(nm, devs) == IF NameBare(nm, devs) THEN NameText(nm) ELSE Quoted(NameText(nm))
 
 (* ---- the printer, arm by arm ----------------------------------------------------- *)
